@@ -36,7 +36,7 @@ CLAUSES = {
     "nothing is lost by the indentation": "format_lossless (unindent ∘ replace = id)",
     "getMessage / formatTime / formatException behaviour": "tie only: stdlib results are passed to the model as inputs",
 }
-PARALLEL = True
+PARALLEL = False   # run_impl takes < 1 s for the whole quick stream; forking costs more than it saves
 
 LEVELS = [10, 20, 30, 40, 50, 0, 5, 25, 60]
 PIECES = ["hello", " ", "%s", "%d", "%r", "%(a)s", "%(b)d", "%%", "%", "%5.2f", "%c", "%x", "%*d", "\n", "\r\n", "\r", "\x85", " ",
@@ -250,6 +250,8 @@ def run_impl(case):
 
 
 def model_requests(case, impl):
+    if "harness_exc" in impl:
+        return []
     if case["kind"] == "isspace":
         return [line(ID, "isspace", list(range(case["lo"], case["hi"])))]
     if case["kind"] == "rstrip":
@@ -275,6 +277,8 @@ def impl_view(case, impl):
 
 
 def spec_requests(case, impl):
+    if "harness_exc" in impl:
+        return []
     if case["kind"] != "record" or impl.get("exc"):
         return []
     return [line(ID, "indented", impl["out"])]
